@@ -1,3 +1,3 @@
--- This module serves as the root of the `HbsLms` library.
--- Import modules here that should be built as part of the library.
-import HbsLms.Basic
+-- Root of the HbsLms library: model, specifications, lemmas and property theorems.
+import HbsLms.Impl.FastVerify
+import HbsLms.Props.All
